@@ -328,6 +328,7 @@ class CallMixin:
                 if p not in defaults:
                     raise Unsupported("missing argument %s" % p)
                 loc[p] = self.eval(defaults[p], denv)
+        self._raw_args = dict(loc)  # actual argument values before coercion (call_asserts of the caller's contract)
         # coerce to declared parameter types
         for p in a.args + a.kwonlyargs:
             ty = self.param_type(p, module, contract)
@@ -389,6 +390,21 @@ class CallMixin:
                 recv, args = args[0], args[1:]
         key = ("%s.%s" % (clsname, fnode.name)) if clsname else fnode.name
         loc = self.bind_args(fnode, recv, args, kwargs, module, contract)
+        cenv = getattr(self, "cur_env", None)
+        ccon = getattr(cenv, "contract", None) if cenv is not None else None
+        if ccon is not None and not self.spec and getattr(ccon, "call_asserts", None) and key in ccon.call_asserts and len(self.callee_stack) <= 1:
+            # obligations of the CALLER about what it passes (registry.Contract.call_asserts)
+            saved = dict(cenv.locals)
+            try:
+                for pn, pv in self._raw_args.items():
+                    if isinstance(pv, V):
+                        cenv.locals["arg_" + pn] = pv
+                for j, cl in enumerate(ccon.call_asserts[key]):
+                    self.ctx.oblige("%s:call@%s:%s.passes.%d" % (self.callee_stack[-1] if self.callee_stack else "?", getattr(node, "lineno", None), key, j), "call-assert", self.spec_bool(cl, cenv), site=getattr(node, "lineno", None), note=cl)
+            finally:
+                for k in list(cenv.locals):
+                    if k.startswith("arg_") and k not in saved:
+                        del cenv.locals[k]
         env = Env(loc, module, cls, fnode)
         env.fname = key
         env.contract = contract
